@@ -354,6 +354,24 @@ Definition rewritten_file (f : sfile) : sfile :=
   | inl _ => f
   end.
 
+(* ... and the tree of [f] when Add returned an error at one of its templates:
+   the first [k] nodes as Add rewrites them, the others as [tail] leaves them
+   (untouched; or, when the error is "both soydoc and header params", with the
+   header params appended to the SoyDoc node of the rejected template already:
+   sdn.Params = append(...) comes before the test, tn.Body.Nodes = ... after it) *)
+Definition interrupted_file (k : nat) (tail : list node -> list node) (f : sfile) : sfile :=
+  match find_namespace (sfile_body f) with
+  | inr (nsname, nsae) =>
+      {| sfile_name := sfile_name f; sfile_text := sfile_text f;
+         sfile_body := firstn k (processed_body (sfile_name f) nsname nsae None (sfile_body f)) ++ tail (skipn k (sfile_body f)) |}
+  | inl _ => f
+  end.
+Definition params_appended (extra : list node) (suffix : list node) : list node :=
+  match suffix with
+  | NSoyDoc p ps :: rest => NSoyDoc p (ps ++ extra) :: rest
+  | _ => suffix
+  end.
+
 (* the tree as pinned (before the I9 repair, commit 4041f47): no duplicate test;
    kept for the refutation in Properties/C13.v *)
 Fixpoint add_units_pinned (ftext : bstr) (us : list (add_err + tmpl_unit)) (r : registry) : add_err + registry :=
